@@ -143,12 +143,13 @@ def normPath (p : String) : Except Exc String :=
     if isAbs q then .error .assertionError else .ok q
   else .ok p
 
-/-- `Write._make_filename(outputc)`: `(dirname, filename, fileext, filepath)`; an empty
-`output.filename` raises `LenaRuntimeError` -/
-def wMakeFilename (outdir defName : String) (o : OutCtx) : Except Exc (String × String × String × String) :=
-  let dirname := o.dirname.getD ""
-  let fileext := if o.filetype.isSome && o.fileext.isNone then o.filetype.getD "" else o.fileext.getD "txt"
-  match (match o.filename with
+/-- `Write._make_filename(outputc)` as a function of the four keys it reads: `(dirname, filename, fileext,
+filepath)`; an empty `output.filename` raises `LenaRuntimeError` -/
+def wmfCore (outdir defName : String) (dirname filename fileext filetype : Option String) :
+    Except Exc (String × String × String × String) :=
+  let dirname := dirname.getD ""
+  let fileext := if filetype.isSome && fileext.isNone then filetype.getD "" else fileext.getD "txt"
+  match (match filename with
          | some f => if f = "" then Except.error Exc.lenaRuntimeError else Except.ok f
          | none => Except.ok defName) with
   | .error e => .error e
@@ -160,6 +161,9 @@ def wMakeFilename (outdir defName : String) (o : OutCtx) : Except Exc (String ×
       match normPath filepath with
       | .error e => .error e
       | .ok filepath => .ok (dirname, filename, fileext, pjoin (pjoin outdir dirname) filepath)
+
+def wMakeFilename (outdir defName : String) (o : OutCtx) : Except Exc (String × String × String × String) :=
+  wmfCore outdir defName o.dirname o.filename o.fileext o.filetype
 
 /-! ## File system -/
 
